@@ -95,6 +95,21 @@ def gen_ops(rng, big=False, dlci_pool=None, full_dlci=False, p_over=0.12):
     return ops
 
 
+def gen_backlog(rng):
+    """Many messages pending on one DLCI before the driver pulls anything (a burst of sendmsg):
+    every one of them still goes out exactly once, lower DLCIs first."""
+    hi, lo = rng.sample([4, 5, 9, 10, 20, 127], 2)
+    hi, lo = min(hi, lo), max(hi, lo)
+    ops = [("H", hi), ("H", lo)]
+    n = rng.choice([255, 256, 257, 300])
+    for k in range(n):
+        ops.append(("S", hi, [k % 251] if rng.random() < 0.5 else []))
+        if k in (10, 200):
+            ops.append(("S", lo, [0x7e, k % 256]))
+    ops.append(("DRAIN",))
+    return ops
+
+
 def script_of(ops):
     """Concrete driver script; over-long frames and noise may only be fed
     between frames, which the driver cannot know in advance - so L is issued
@@ -303,6 +318,8 @@ def run(ctx):
         jobs.append(("b%d" % i, gen_ops(ctx.rng, big=True)))
     for i in range(n_full):
         jobs.append(("d%d" % i, gen_ops(ctx.rng, full_dlci=True, p_over=0.12 if (ctx.thorough or i % 8 == 0) else 0.0)))
+    for i in range(ctx.pick(1, 6)):
+        jobs.append(("q%d" % i, gen_backlog(ctx.rng)))
     # ---- GEN: TLC-simulated operation sequences --------------------------
     nsim = ctx.pick(40, 1500)
     simdir = os.path.join(ctx.scratch, "sim")
